@@ -368,8 +368,23 @@ class Gen:
         if k == 0:
             i = self.fresh("i")
             inner.vars[i] = 'c'
-            self.st("for 3-part")
-            return "for %s := 0; %s < %d; %s++ %s" % (i, i, 1 + r.below(4), i, self.block(inner, True, in_func, depth))
+            v = r.below(6)
+            if v < 3:
+                self.st("for 3-part")
+                return "for %s := 0; %s < %d; %s++ %s" % (i, i, 1 + r.below(4), i, self.block(inner, True, in_func, depth))
+            # the other shapes of the three clauses: an expression / an assignment / nothing as init, an expression as post
+            del inner.vars[i]
+            sc.vars[i] = 'c'
+            body = self.block(inner, True, in_func, depth)
+            n = 1 + r.below(4)
+            if v == 3:
+                self.st("for 3-part expr-init")
+                return "%s := 0\nfor %s; %s < %d; %s++ %s" % (i, self.int_expr(sc, 2), i, n, i, body)
+            if v == 4:
+                self.st("for 3-part no-init")
+                return "%s := 0\nfor ; %s < %d; %s++ %s" % (i, i, n, i, body)
+            self.st("for 3-part expr-post")
+            return "%s := 5\nfor %s = 0; %s < %d; %s { %s++; %s }" % (i, i, i, n, self.int_expr(sc, 2), i, body[1:-1])
         if k == 1:
             c = self.fresh("n")
             self.st("for cond")
